@@ -125,11 +125,13 @@ def verify_contract(contract: Contract, tier="quick", seed=0, known_regions=None
                 if ob.status == "failed" and a["status"] != "failed":
                     a["status"] = "failed"
                     vals = model_values(ob.model, ctx.inputs)
+                    vals.update(ctx.options.get("__replay_hints__", {}))
                     a["failure"] = {"inputs": vals, "path": ob.path, "info": ob.info, "line": ob.line, "detail": ob.detail}
                     a["failure"]["known"] = ob.known
                 elif ob.status == "failed" and ob.known != "inside" and a["failure"] is not None and a["failure"].get("known") == "inside":
                     # a second failing path that lies outside the known region: that one is reported
                     vals = model_values(ob.model, ctx.inputs)
+                    vals.update(ctx.options.get("__replay_hints__", {}))
                     a["failure"] = {"inputs": vals, "path": ob.path, "info": ob.info, "line": ob.line, "known": ob.known}
                 elif ob.status == "unknown" and a["status"] == "discharged":
                     a["status"] = "unknown"
